@@ -60,6 +60,13 @@ impl Command {
         Ok(Child { id })
     }
     pub fn output(&mut self) -> OutputFut {
+        if let Ok(pat) = std::env::var("ZX_HANG_OUTPUT") {
+            // a command whose output is awaited takes arbitrarily long: it never completes in this run
+            if self.args.iter().any(|a| a.to_string_lossy().contains(pat.as_str())) {
+                zx_rt::log(&format!("output_hangs task={}", rt().cur_task));
+                return OutputFut(None);
+            }
+        }
         let mut c = std::process::Command::new(&self.program);
         c.args(&self.args);
         if let Some(d) = &self.dir {
@@ -73,7 +80,10 @@ impl Unpin for OutputFut {}
 impl Future for OutputFut {
     type Output = io::Result<Output>;
     fn poll(mut self: Pin<&mut Self>, _cx: &mut Context<'_>) -> Poll<Self::Output> {
-        Poll::Ready(self.0.take().unwrap())
+        match self.0.take() {
+            Some(r) => Poll::Ready(r),
+            None => Poll::Pending,
+        }
     }
 }
 pub struct Child {
